@@ -154,8 +154,8 @@ pub fn wellformed_tx(spec: &TxSpec) -> Transaction {
 /// no field for the former and stores the latter as the blinding key, so extraction cannot return them
 /// (recorded known finding C08.tx_rtt output.nonce(...)); they are confined to a fraction of the runs.
 pub fn wellformed_tx_nonce(spec: &TxSpec, exotic_nonce: bool) -> Transaction {
-    let mut s = spec.clone();
-    s.coinbase = false;
+    // (coinbase inputs are well-formed too: index 0xffffffff carries no pegin / issuance flag)
+    let s = spec.clone();
     let mut tx = gen::tx(&s);
     let mut p = Prng::from_u64(spec.seed ^ 0x77);
     for i in &mut tx.input {
@@ -203,7 +203,8 @@ pub fn model_extract(ps: &Pset, lock_time: LockTime) -> Transaction {
             let coinbase = idx == 0xffff_ffff;
             TxIn {
                 previous_output: OutPoint::new(i.previous_txid, if coinbase { idx } else { idx & 0x3fff_ffff }),
-                is_pegin: idx & (1 << 30) != 0,
+                // index 0xffffffff carries no flags (the consensus encoding's exemption)
+                is_pegin: !coinbase && idx & (1 << 30) != 0,
                 script_sig: i.final_script_sig.clone().unwrap_or_default(),
                 sequence: i.sequence.unwrap_or(Sequence::MAX),
                 // the commitment, when present, is what the transaction carries; an explicit amount next to
